@@ -162,12 +162,20 @@ func MessageKey(msg *pb.XuperMessage) string {
 	}
 
 	header := msg.GetHeader()
+	fields := []string{
+		header.GetType().String(),
+		header.GetBcname(),
+		header.GetFrom(),
+		header.GetLogid(),
+		fmt.Sprintf("%d", header.GetDataCheckSum()),
+	}
+	// every field is written with its length in front: without it different headers
+	// (bcname "ab" + from "c" and bcname "a" + from "bc") gave the same key
 	buf := new(bytes.Buffer)
-	buf.WriteString(header.GetType().String())
-	buf.WriteString(header.GetBcname())
-	buf.WriteString(header.GetFrom())
-	buf.WriteString(header.GetLogid())
-	buf.WriteString(fmt.Sprintf("%d", header.GetDataCheckSum()))
+	for _, field := range fields {
+		buf.WriteString(fmt.Sprintf("%d:", len(field)))
+		buf.WriteString(field)
+	}
 	return utils.F(hash.DoubleSha256(buf.Bytes()))
 }
 
